@@ -34,7 +34,7 @@ Init == /\ \E nv \in 1..MaxVoices, nb \in 1..MaxBars, bpm \in {120, 60, 200}, sa
 Next == /\ ~done
         /\ LET v == cell[1] b == cell[2] m == prog.meters[b] IN
            \E f \in (IF prog.same /\ v > 1 THEN {prog.fills[b]} ELSE FillsOf(m)), pat \in 1..5, wb \in BOOLEAN :
-              /\ prog' = [prog EXCEPT !.tracks[v].bars = Append(@, BarOf(m, f, v, pat, wb /\ v = 1)),
+              /\ prog' = [prog EXCEPT !.tracks[v].bars = Append(@, BarOf(m, f, v - 1, pat, wb /\ v = 1)),
                                        !.fills = IF v = 1 THEN Append(@, f) ELSE @]
               /\ IF b < Len(prog.meters) THEN cell' = <<v, b + 1>> /\ done' = FALSE
                  ELSE IF v < prog.nv THEN cell' = <<v + 1, 1>> /\ done' = FALSE
